@@ -332,3 +332,41 @@ Section Complete.
     - apply in_map_iff in Hin as [x [<- Hx]]. simpl. split; [left; reflexivity|]. apply Hemit. apply Hr. exact Hx.
   Qed.
 End Complete.
+
+(* ---- the SPDX parser transfers identifiers and endpoints verbatim (C05) --------------------------- *)
+Section Parsed.
+  Variable parse_time : string -> option ts.
+
+  Definition spdx_elements (s : sdoc) : list string := map sp_id (sd_packages s) ++ map sf_id (sd_files s).
+
+  Theorem spdx_unser_ids s : ids (spdx_unser_nl parse_time s) = spdx_elements s.
+  Proof.
+    unfold ids, spdx_unser_nl, spdx_elements; cbn [nl_nodes]. rewrite map_app, !map_map. reflexivity.
+  Qed.
+
+  (* closed whenever the input's own references resolve, identifiers as unique as the input's *)
+  Theorem spdx_unser_wf s :
+    NoDup (spdx_elements s) ->
+    (forall r, In r (sd_rels s) -> In (rl_b r) (spdx_elements s) /\ (is_describes r = false -> In (rl_a r) (spdx_elements s))) ->
+    wf (spdx_unser_nl parse_time s).
+  Proof.
+    intros Hn Hr. split; [|split].
+    - rewrite spdx_unser_ids. exact Hn.
+    - rewrite spdx_unser_ids. intros e He. cbn [spdx_unser_nl nl_edges] in He.
+      apply in_map_iff in He as [r [<- Hin]]. apply filter_In in Hin as [Hin Hd]. apply negb_true_iff in Hd.
+      destruct (Hr r Hin) as [Hb Ha]. cbn [rel_to_edge e_from e_to]. split; [exact (Ha Hd)|].
+      intros x [<-|[]]. exact Hb.
+    - rewrite spdx_unser_ids. intros x Hx. cbn [spdx_unser_nl nl_root_elements] in Hx.
+      apply in_map_iff in Hx as [r [<- Hin]]. apply filter_In in Hin as [Hin _]. exact (proj1 (Hr r Hin)).
+  Qed.
+
+  (* an edge endpoint that names no parsed node is one the input itself left dangling *)
+  Theorem spdx_unser_dangling_only_from_input s e x :
+    In e (nl_edges (spdx_unser_nl parse_time s)) -> (x = e_from e \/ In x (e_to e)) -> ~ In x (spdx_elements s) ->
+    exists r, In r (sd_rels s) /\ (x = rl_a r \/ x = rl_b r).
+  Proof.
+    cbn [spdx_unser_nl nl_edges]. intros He Hx _. apply in_map_iff in He as [r [<- Hin]].
+    apply filter_In in Hin as [Hin _]. exists r. split; [exact Hin|]. cbn [rel_to_edge e_from e_to] in Hx.
+    destruct Hx as [->|[<-|[]]]; [left|right]; reflexivity.
+  Qed.
+End Parsed.
